@@ -1,18 +1,29 @@
 """Extra (non-stream) steps of some properties: feature matrix builds, macro-lab crates."""
-import itertools, os, subprocess, time
+import itertools, os, signal, subprocess, time
 
 VERIF = os.path.dirname(os.path.dirname(os.path.abspath(__file__)))
 BUILD = os.path.join(VERIF, ".build")
 REPO = os.environ.get("VERIF_REPO", "/repo")
 
 
-def _sh(cmd, cwd=None, env=None, timeout=3000):
+def _sh(cmd, cwd=None, env=None, timeout=900):
+    """Own process group; a hung rustc (a derive that does not terminate) is killed with the whole group and
+    reported as rc 124."""
     e = dict(os.environ)
     e["CARGO_NET_OFFLINE"] = "true"
     if env:
         e.update(env)
-    p = subprocess.run(cmd, cwd=cwd, env=e, stdout=subprocess.PIPE, stderr=subprocess.STDOUT, text=True, timeout=timeout)
-    return p.returncode, p.stdout
+    p = subprocess.Popen(cmd, cwd=cwd, env=e, stdout=subprocess.PIPE, stderr=subprocess.STDOUT, text=True, start_new_session=True)
+    try:
+        out, _ = p.communicate(timeout=timeout)
+    except subprocess.TimeoutExpired:
+        try:
+            os.killpg(p.pid, signal.SIGKILL)
+        except ProcessLookupError:
+            pass
+        out, _ = p.communicate()
+        return 124, (out or "") + f"\nerror: TIMEOUT after {timeout}s (the build did not terminate: a macro that loops?)"
+    return p.returncode, out
 
 
 def pod_features(pid, tier, seed, rundir, log):
@@ -164,8 +175,10 @@ def macro_lab_c19(pid, tier, seed, rundir, log):
            "distinct_nontrivial": 0, "samples": [], "histogram": {}}
     items = []
     used = set()
-    # names 1 and 2 need a non-zero nonce (found once by brute force: value at nonce 0 is below 7000)
-    corpus_names = ["ExampleLibraryError", "NonceErr246485", "NonceErr1050261", "E", "TokenError"]
+    # found once by brute force (harness/src/bin/findname.rs): Bnd3841729940 hashes to exactly the minimum 7000 at
+    # nonce 0 (must be accepted there: `>=`), Bnd830103612 to 6999 (must be rejected, the nonce advances), the
+    # NonceErr names need a non-zero nonce as well
+    corpus_names = ["Bnd3841729940", "NonceErr246485", "Bnd830103612", "ExampleLibraryError", "NonceErr1050261", "E", "TokenError"]
     for k in range(n_items):
         kind = ["spl", "spl_hash", "derive", "tostr", "spl_crate"][k % 5]
         name = corpus_names[k // 5] if kind == "spl_hash" and k // 5 < len(corpus_names) else _ident(rng)
@@ -198,6 +211,9 @@ def macro_lab_c19(pid, tier, seed, rundir, log):
         for (vn, disc, msg) in vs:
             attrs = "    /// doc\n" if rng.random() < 0.3 else ""
             if msg is not None:
+                # a decoy: another attribute that also holds a string literal must not be taken for the message
+                if rng.random() < 0.25:
+                    attrs += "    #[clippy::verif_decoy(\"not the message\")]\n"
                 attrs += "    #[error(%s)]\n" % _rust_str(msg, rng)
             body.append("%s    %s%s," % (attrs, vn, (" = %d" % disc) if disc is not None else ""))
         if kind == "spl":
